@@ -119,3 +119,268 @@ Proof.
     rewrite (dsmall_cs_is_Dmat j2 m2 k), (dsmall_cs_is_Dmat j2 k n2); auto; apply Hl; left; reflexivity. }
   apply G. auto.
 Qed.
+
+(* ---------- complex matrices ---------- *)
+Definition PsymC : Z -> Z -> Z -> C -> C -> C -> C -> C := Psym C (RtoC 0) (RtoC 1) Cplus Cmult.
+Definition csum {A} (f : A -> C) (l : list A) : C := tsum (RtoC 0) Cplus f l.
+Definition DmatC (j2 m2 n2 : Z) (a b c d : C) : C :=
+  Cmult (RtoC (nrm j2 m2 n2)) (PsymC j2 m2 n2 a b c d).
+
+Lemma csum_scal {A} x (f : A -> C) l : Cmult x (csum f l) = csum (fun k => Cmult x (f k)) l.
+Proof. unfold csum. induction l as [|k l IH]; simpl; [ring|]. rewrite <- IH. ring. Qed.
+
+(* step 2: the unnormalised symmetric power is multiplicative *)
+Theorem Psym_hom j2 m2 n2 :
+  (0 <= j2 <= 8)%Z -> In m2 (m_range j2) -> In n2 (m_range j2) ->
+  forall a b c d a' b' c' d' : C,
+    PsymC j2 m2 n2 (a * a' + b * c')%C (a * b' + b * d')%C (c * a' + d * c')%C (c * b' + d * d')%C
+    = csum (fun k2 => (PsymC j2 m2 k2 a b c d * PsymC j2 k2 n2 a' b' c' d')%C) (m_range j2).
+Proof. exact (Psym_hom_gen C (RtoC 0) (RtoC 1) Cplus Cmult Cminus Copp C_ring_theory j2 m2 n2). Qed.
+
+(* step 3: so is the normalised one *)
+Theorem Dmat_hom j2 m2 n2 :
+  (0 <= j2 <= 8)%Z -> In m2 (m_range j2) -> In n2 (m_range j2) ->
+  forall a b c d a' b' c' d' : C,
+    DmatC j2 m2 n2 (a * a' + b * c')%C (a * b' + b * d')%C (c * a' + d * c')%C (c * b' + d * d')%C
+    = csum (fun k2 => (DmatC j2 m2 k2 a b c d * DmatC j2 k2 n2 a' b' c' d')%C) (m_range j2).
+Proof.
+  intros Hj Hm Hn a b c d a' b' c' d'. unfold DmatC.
+  rewrite (Psym_hom j2 m2 n2 Hj Hm Hn), csum_scal. apply tsum_ext. intros k.
+  rewrite <- (nrm_mul j2 m2 k n2), RtoC_mult. ring.
+Qed.
+
+(* 2x2 complex matrices [[a,b],[c,d]] as 4-tuples *)
+Definition M2 : Type := (C * C * C * C)%type.
+Definition mmul (U V : M2) : M2 :=
+  let '(a, b, c, d) := U in let '(a', b', c', d') := V in
+  (a * a' + b * c', a * b' + b * d', c * a' + d * c', c * b' + d * d')%C.
+Definition mconj (U : M2) : M2 := let '(a, b, c, d) := U in (Cconj a, Cconj b, Cconj c, Cconj d).
+Definition DmatM (j2 m2 n2 : Z) (U : M2) : C := let '(a, b, c, d) := U in DmatC j2 m2 n2 a b c d.
+
+(* step 5: group law of the spin-j matrices, all complex 2x2 matrices, 2j <= 8 *)
+Theorem D_group_law j2 m2 n2 (U V : M2) :
+  (0 <= j2 <= 8)%Z -> In m2 (m_range j2) -> In n2 (m_range j2) ->
+  DmatM j2 m2 n2 (mmul U V) = csum (fun k2 => (DmatM j2 m2 k2 U * DmatM j2 k2 n2 V)%C) (m_range j2).
+Proof.
+  intros Hj Hm Hn. destruct U as [[[a b] c] d]. destruct V as [[[a' b'] c'] d'].
+  exact (Dmat_hom j2 m2 n2 Hj Hm Hn a b c d a' b' c' d').
+Qed.
+
+(* unit matrix *)
+Theorem Dmat_one j2 m2 n2 :
+  (0 <= j2 <= 8)%Z -> In m2 (m_range j2) -> In n2 (m_range j2) ->
+  DmatM j2 m2 n2 (RtoC 1, RtoC 0, RtoC 0, RtoC 1) = RtoC (delta m2 n2).
+Proof.
+  intros Hj Hm Hn. unfold DmatM, DmatC, PsymC.
+  rewrite (Psym_one_gen C (RtoC 0) (RtoC 1) Cplus Cmult Cminus Copp C_ring_theory j2 m2 n2 Hj Hm Hn).
+  unfold delta. destruct (Z.eqb_spec m2 n2) as [->|Hne].
+  - unfold nrm. replace (sqrt (IZR (a_of j2 n2)) / sqrt (IZR (a_of j2 n2))) with 1
+      by (field; apply sqrt_a_neq). ring.
+  - ring.
+Qed.
+
+(* complex conjugation and the embedding of R are ring morphisms *)
+Lemma Cconj_plus (x y : C) : Cconj (x + y)%C = (Cconj x + Cconj y)%C.
+Proof. apply injective_projections; simpl; ring. Qed.
+Lemma Cconj_mult (x y : C) : Cconj (x * y)%C = (Cconj x * Cconj y)%C.
+Proof. apply injective_projections; simpl; ring. Qed.
+Lemma Cconj_R (x : R) : Cconj (RtoC x) = RtoC x.
+Proof. apply injective_projections; simpl; ring. Qed.
+
+Theorem Dmat_conj j2 m2 n2 U : DmatM j2 m2 n2 (mconj U) = Cconj (DmatM j2 m2 n2 U).
+Proof.
+  destruct U as [[[a b] c] d]. unfold mconj, DmatM, DmatC, PsymC.
+  rewrite Cconj_mult, Cconj_R.
+  rewrite (phi_Psym C C (RtoC 0) (RtoC 1) Cplus Cmult (RtoC 0) (RtoC 1) Cplus Cmult Cconj
+             (Cconj_R 0) (Cconj_R 1) Cconj_plus Cconj_mult).
+  reflexivity.
+Qed.
+
+Theorem Dmat_real j2 m2 n2 (a b c d : R) :
+  DmatC j2 m2 n2 (RtoC a) (RtoC b) (RtoC c) (RtoC d) = RtoC (DmatR j2 m2 n2 a b c d).
+Proof.
+  unfold DmatC, DmatR, PsymC, PsymR. rewrite RtoC_mult.
+  rewrite (phi_Psym R C 0 1 Rplus Rmult (RtoC 0) (RtoC 1) Cplus Cmult RtoC
+             eq_refl eq_refl RtoC_plus RtoC_mult).
+  reflexivity.
+Qed.
+
+(* ---------- Euler angles ---------- *)
+Definition cis (t : R) : C := (cos t, sin t).
+
+Lemma cis_mul a b : (cis a * cis b)%C = cis (a + b).
+Proof. unfold cis. apply injective_projections; simpl; [rewrite cos_plus|rewrite sin_plus]; ring. Qed.
+
+Lemma cis_0 : cis 0 = RtoC 1.
+Proof. unfold cis, RtoC. rewrite cos_0, sin_0. reflexivity. Qed.
+
+Lemma cis_pow t n : tpow C (RtoC 1) Cmult (cis t) n = cis (INR n * t).
+Proof.
+  induction n as [|n IH].
+  - simpl. rewrite Rmult_0_l, cis_0. reflexivity.
+  - change (tpow C (RtoC 1) Cmult (cis t) (S n)) with (Cmult (cis t) (tpow C (RtoC 1) Cmult (cis t) n)).
+    rewrite IH, cis_mul, S_INR. f_equal. ring.
+Qed.
+
+Lemma Cconj_cis t : Cconj (cis t) = cis (- t).
+Proof. unfold cis, Cconj. simpl. rewrite cos_neg, sin_neg. reflexivity. Qed.
+
+(* (j+m) - (j-m) = 2m/2 on the doubled-index range *)
+Lemma hp_hm_diff j2 m2 : In m2 (m_range j2) -> INR (hp j2 m2) - INR (hm j2 m2) = IZR m2.
+Proof.
+  unfold m_range. intros H. apply in_map_iff in H. destruct H as [x [E Hx]]. apply in_seq in Hx.
+  unfold hp, hm. subst m2.
+  replace (j2 + (- j2 + 2 * Z.of_nat x))%Z with (Z.of_nat x * 2)%Z by lia.
+  replace (j2 - (- j2 + 2 * Z.of_nat x))%Z with ((j2 - Z.of_nat x) * 2)%Z by lia.
+  rewrite !Z.div_mul by lia. rewrite Nat2Z.id.
+  rewrite (INR_IZR_INZ (Z.to_nat _)), Z2Nat.id by lia.
+  rewrite INR_IZR_INZ, <- minus_IZR. f_equal. lia.
+Qed.
+
+Lemma cis_phase j2 m2 t :
+  In m2 (m_range j2) ->
+  (tpow C (RtoC 1) Cmult (cis (t / 2)) (hp j2 m2) * tpow C (RtoC 1) Cmult (cis (- (t / 2))) (hm j2 m2))%C
+  = cis (IZR m2 / 2 * t).
+Proof.
+  intros H. rewrite !cis_pow, cis_mul. f_equal. rewrite <- (hp_hm_diff j2 m2 H). field.
+Qed.
+
+(* Rz phi = diag(e^{-i phi/2}, e^{i phi/2}), Ry beta = [[c,-s],[s,c]], Euler = Rz(al) Ry(be) Rz(ga) *)
+Definition Rz (phi : R) : M2 := (cis (- (phi / 2)), RtoC 0, RtoC 0, cis (phi / 2)).
+Definition Ry (beta : R) : M2 :=
+  (RtoC (cos (beta / 2)), RtoC (- sin (beta / 2)), RtoC (sin (beta / 2)), RtoC (cos (beta / 2))).
+Definition Euler (al be ga : R) : M2 := mmul (mmul (Rz al) (Ry be)) (Rz ga).
+
+Lemma mconj_mmul U V : mconj (mmul U V) = mmul (mconj U) (mconj V).
+Proof.
+  destruct U as [[[a b] c] d]. destruct V as [[[a' b'] c'] d']. unfold mmul, mconj.
+  rewrite !Cconj_plus, !Cconj_mult. reflexivity.
+Qed.
+
+Lemma mconj_Rz phi : mconj (Rz phi) = Rz (- phi).
+Proof.
+  unfold Rz, mconj. rewrite !Cconj_cis, !Cconj_R.
+  replace (- phi / 2) with (- (phi / 2)) by field. reflexivity.
+Qed.
+
+Lemma mconj_Ry beta : mconj (Ry beta) = Ry beta.
+Proof. unfold Ry, mconj. rewrite !Cconj_R. reflexivity. Qed.
+
+Lemma mconj_Euler al be ga : mconj (Euler al be ga) = Euler (- al) be (- ga).
+Proof. unfold Euler. rewrite !mconj_mmul, !mconj_Rz, mconj_Ry. reflexivity. Qed.
+
+Lemma Euler_conj_entries al be ga :
+  mconj (Euler al be ga)
+  = (cis (al / 2) * RtoC (cos (be / 2)) * cis (ga / 2),
+     cis (al / 2) * RtoC (- sin (be / 2)) * cis (- (ga / 2)),
+     cis (- (al / 2)) * RtoC (sin (be / 2)) * cis (ga / 2),
+     cis (- (al / 2)) * RtoC (cos (be / 2)) * cis (- (ga / 2)))%C.
+Proof.
+  rewrite mconj_Euler. unfold Euler, Rz, Ry, mmul.
+  replace (- al / 2) with (- (al / 2)) by field. replace (- ga / 2) with (- (ga / 2)) by field.
+  rewrite !Ropp_involutive.
+  apply f_equal2; [apply f_equal2; [apply f_equal2|]|]; ring.
+Qed.
+
+(* spin 1/2 is the defining representation; rows/columns ordered m = +1/2, -1/2 *)
+Lemma Dmat_half (a b c d : C) :
+  DmatM 1 1 1 (a, b, c, d) = a /\ DmatM 1 1 (-1) (a, b, c, d) = b /\
+  DmatM 1 (-1) 1 (a, b, c, d) = c /\ DmatM 1 (-1) (-1) (a, b, c, d) = d.
+Proof.
+  unfold DmatM, DmatC, nrm. change (a_of 1 1) with 1%Z. change (a_of 1 (-1)) with 1%Z.
+  rewrite sqrt_1. replace (1 / 1) with 1 by field.
+  repeat split; cbv -[Cplus Cmult RtoC C IZR]; ring.
+Qed.
+
+(* explicit entries of the Euler rotation *)
+Lemma Euler_entries al be ga :
+  Euler al be ga
+  = (cis (- (al / 2)) * RtoC (cos (be / 2)) * cis (- (ga / 2)),
+     cis (- (al / 2)) * RtoC (- sin (be / 2)) * cis (ga / 2),
+     cis (al / 2) * RtoC (sin (be / 2)) * cis (- (ga / 2)),
+     cis (al / 2) * RtoC (cos (be / 2)) * cis (ga / 2))%C.
+Proof.
+  unfold Euler, Rz, Ry, mmul.
+  apply f_equal2; [apply f_equal2; [apply f_equal2|]|]; ring.
+Qed.
+
+(* elementary products of the Euler factors (the hypothesis of Dconj_group_law is satisfiable) *)
+Ltac m2_ring := apply f_equal2; [apply f_equal2; [apply f_equal2|]|]; ring.
+
+Lemma mmul_assoc U V W : mmul (mmul U V) W = mmul U (mmul V W).
+Proof.
+  destruct U as [[[a b] c] d]. destruct V as [[[a' b'] c'] d']. destruct W as [[[a'' b''] c''] d''].
+  unfold mmul. m2_ring.
+Qed.
+
+Lemma Rz_add p q : mmul (Rz p) (Rz q) = Rz (p + q).
+Proof.
+  unfold Rz, mmul.
+  replace (- ((p + q) / 2)) with (- (p / 2) + - (q / 2)) by field.
+  replace ((p + q) / 2) with (p / 2 + q / 2) by field.
+  rewrite <- !cis_mul. m2_ring.
+Qed.
+
+Lemma Ry_add p q : mmul (Ry p) (Ry q) = Ry (p + q).
+Proof.
+  unfold Ry, mmul. replace ((p + q) / 2) with (p / 2 + q / 2) by field.
+  rewrite cos_plus, sin_plus. rewrite <- !RtoC_mult, <- !RtoC_plus.
+  apply f_equal2; [apply f_equal2; [apply f_equal2|]|]; f_equal; ring.
+Qed.
+
+Lemma Euler_Rz_r al be ga p : mmul (Euler al be ga) (Rz p) = Euler al be (ga + p).
+Proof. unfold Euler. rewrite mmul_assoc, Rz_add. reflexivity. Qed.
+
+Lemma Euler_Rz_l al be ga p : mmul (Rz p) (Euler al be ga) = Euler (p + al) be ga.
+Proof. unfold Euler. rewrite <- !mmul_assoc, Rz_add. reflexivity. Qed.
+
+(* step 4: the model's conjugated D function is the spin-j matrix of the conjugated Euler rotation *)
+Theorem Dconj_is_Dmat j2 m2 n2 al be ga :
+  (0 <= j2 <= 8)%Z -> In m2 (m_range j2) -> In n2 (m_range j2) ->
+  Dconj j2 m2 n2 al be ga = DmatM j2 m2 n2 (mconj (Euler al be ga)).
+Proof.
+  intros Hj Hm Hn. rewrite Euler_conj_entries. unfold DmatM, DmatC, PsymC.
+  rewrite (Psym_scale_gen C (RtoC 0) (RtoC 1) Cplus Cmult Cminus Copp C_ring_theory j2 m2 n2 Hj Hm Hn).
+  rewrite (cis_phase j2 m2 al Hm), (cis_phase j2 n2 ga Hn), cis_mul.
+  rewrite <- (phi_Psym R C 0 1 Rplus Rmult (RtoC 0) (RtoC 1) Cplus Cmult RtoC
+                eq_refl eq_refl RtoC_plus RtoC_mult).
+  unfold Dconj, dsmall. rewrite (dsmall_cs_is_Dmat j2 m2 n2 _ _ Hj Hm Hn). unfold DmatR, PsymR.
+  unfold cis, RtoC, Cmult. apply injective_projections; simpl; ring.
+Qed.
+
+Corollary Dconj_is_conj_Dmat j2 m2 n2 al be ga :
+  (0 <= j2 <= 8)%Z -> In m2 (m_range j2) -> In n2 (m_range j2) ->
+  Dconj j2 m2 n2 al be ga = Cconj (DmatM j2 m2 n2 (Euler al be ga)).
+Proof. intros Hj Hm Hn. rewrite <- Dmat_conj. apply Dconj_is_Dmat; assumption. Qed.
+
+Corollary Dconj_is_Dmat_neg j2 m2 n2 al be ga :
+  (0 <= j2 <= 8)%Z -> In m2 (m_range j2) -> In n2 (m_range j2) ->
+  Dconj j2 m2 n2 al be ga = DmatM j2 m2 n2 (Euler (- al) be (- ga)).
+Proof. intros Hj Hm Hn. rewrite <- mconj_Euler. apply Dconj_is_Dmat; assumption. Qed.
+
+Lemma tsum_ext_in {T A} (tO : T) tadd (f g : A -> T) l :
+  (forall k, In k l -> f k = g k) -> tsum tO tadd f l = tsum tO tadd g l.
+Proof.
+  intros H. induction l as [|k l IH]; simpl; [reflexivity|].
+  rewrite (H k) by (left; reflexivity). rewrite IH by (intros; apply H; right; assumption). reflexivity.
+Qed.
+
+(* step 5, Euler form: if the SU(2) product of two Euler rotations is a third Euler rotation
+   (equality of 2x2 complex matrices), the conjugated D functions of the model multiply accordingly *)
+Theorem Dconj_group_law j2 m2 n2 a1 b1 g1 a2 b2 g2 a3 b3 g3 :
+  (0 <= j2 <= 8)%Z -> In m2 (m_range j2) -> In n2 (m_range j2) ->
+  mmul (Euler a1 b1 g1) (Euler a2 b2 g2) = Euler a3 b3 g3 ->
+  csum (fun k2 => (Dconj j2 m2 k2 a1 b1 g1 * Dconj j2 k2 n2 a2 b2 g2)%C) (m_range j2)
+  = Dconj j2 m2 n2 a3 b3 g3.
+Proof.
+  intros Hj Hm Hn HE. rewrite (Dconj_is_Dmat j2 m2 n2 a3 b3 g3 Hj Hm Hn), <- HE, mconj_mmul.
+  rewrite (D_group_law j2 m2 n2 _ _ Hj Hm Hn). apply tsum_ext_in. intros k Hk.
+  rewrite (Dconj_is_Dmat j2 m2 k a1 b1 g1 Hj Hm Hk), (Dconj_is_Dmat j2 k n2 a2 b2 g2 Hj Hk Hn).
+  reflexivity.
+Qed.
+
+Print Assumptions D_group_law.
+Print Assumptions dsmall_cs_is_Dmat.
+Print Assumptions dsmall_add.
+Print Assumptions Dconj_is_Dmat.
+Print Assumptions Dconj_group_law.
